@@ -314,6 +314,37 @@ def native_value_programs():
     return ["// native-values\n" + pre + p for p in progs]
 
 
+def operator_value_programs():
+    """The result of every operator on every pair of a value grid is logged under the sanitizer: an arithmetic corner that the host
+    answers with one of its own types (complex, Decimal, Fraction, NotImplemented, a big int that is not a double ...) is a host value in
+    script hands like any other."""
+    vals = ["-8", "-4", "-2.5", "-1", "-0.5", "-0", "0", "0.5", "1/3", "1", "2", "3.7", "1e308", "-1e308", "5e-324", "2147483648", "9007199254740993", "Infinity", "-Infinity", "NaN",
+            "'3'", "'-2.5'", "''", "'x'", "true", "null", "undefined", "[]", "[2]", "({})"]
+    bins = ["+", "-", "*", "/", "%", "**", "&", "|", "^", "<<", ">>", ">>>", "<", "<=", "==", "===", "&&", "||"]
+    uns = ["-", "+", "~", "!", "typeof ", "void "]
+    exprs = []
+    for op in bins:
+        for a in vals:
+            for b in vals:
+                exprs.append("(%s) %s (%s)" % (a, op, b))
+    for op in uns:
+        for a in vals:
+            exprs.append("%s(%s)" % (op, a))
+    for a in vals:
+        for b in vals[:12]:
+            exprs.append("Math.pow(%s, %s)" % (a, b))
+            exprs.append("(function () { var x = %s; x **= %s; return x; })()" % (a, b))
+            exprs.append("(function () { var x = %s; x %%= %s; return x; })()" % (a, b))
+        for f in ("Math.sqrt", "Math.cbrt", "Math.log", "Math.acos", "Math.round", "Math.fround", "Math.sign", "Math.trunc", "Math.atan2.bind(null, 1)", "Math.hypot.bind(null, 3)", "Number", "parseFloat", "parseInt",
+                  "isNaN", "Math.max.bind(null, 0)", "Math.min", "Math.abs", "Math.exp", "Math.clz32", "Math.imul.bind(null, 3)"):
+            exprs.append("%s(%s)" % (f, a))
+    progs = []
+    for i in range(0, len(exprs), 250):
+        chunk = exprs[i:i + 250]
+        progs.append("// operator-values %d\nvar R = [];\n" % i + "\n".join("try { R.push(%s); } catch (e) { R.push('T:' + e.name); }" % e for e in chunk) + "\nlog(R); R.length")
+    return progs
+
+
 def gen_invocation_prog(rng):
     """Program whose explicit hostfn call sites each pass a unique site id after bumping a script counter."""
     n = rng.randint(1, 6)
@@ -387,7 +418,7 @@ def main(ctx):
         # random programs + closure-heavy programs with the sanitizer on
         progs = [progen.random_program(rng) for _ in range(300 if ctx.quick else 6000)] + \
                 [progen.closure_heavy(rng) for _ in range(100 if ctx.quick else 2000)]
-        progs += caught_error_programs() + native_value_programs()
+        progs += caught_error_programs() + native_value_programs() + operator_value_programs()
         rres = ep.map({"mod": "checks.C03", "fn": "w_probe"}, [{"progs": progs[i:i + 50], "log": True} for i in range(0, len(progs), 50)],
                       batch=1, timeout=600)
         # invocation log programs
